@@ -50,7 +50,7 @@ class Prop:
     def run(self, ctx):
         rng = ctx.rng('c18')
         cases = []
-        for _ in range(400 if ctx.tier == 'quick' else 8000):
+        for _ in range(1500 if ctx.tier == 'quick' else 20000):
             parts, seq_no = [], 0
             for _ in range(rng.randint(2, 8)):
                 r = rng.random()
